@@ -17,7 +17,10 @@ func (a *ResponseOptimizerPlanner) Process(ctx *shared.PlannerContext,
 			return nil
 		},
 		OnAfterEntriesSlice: func(entries []shared.LogEntry, c chan []shared.LogEntry) error {
-			if size < 3000 {
+			// a request with a limit is bounded by it (LimitPlanner runs before this stage): its entries are
+			// grouped as a whole, so that every stream gets one object in the response. Only a request without
+			// a limit is sent in portions (a stream seen in two portions then has two objects)
+			if size < 3000 || ctx.Limit != 0 {
 				return nil
 			}
 			for _, ents := range fpMap {
